@@ -389,7 +389,16 @@ def run_case(world, case):
                 if not GATE.handed.wait(WAIT):
                     stalled[0] = True
                 GATE.release()
-            m = cl.recv_msg()
+            if gated:
+                # wait for the handshake answer, but stop as soon as the worker the connection was given to is seen dead
+                dl = time.time() + WAIT
+                m = "TIMEOUT"
+                while time.time() < dl:
+                    m = cl.recv_msg(timeout=0.05)
+                    if m != "TIMEOUT" or w.dead_workers() > 0:
+                        break
+            else:
+                m = cl.recv_msg()
             if m == "TIMEOUT" and gated and w.dead_workers() > 0:
                 pass        # not a slow run: the worker the connection was given to has terminated; a genuine observation
             else:
